@@ -27,6 +27,13 @@ pub uninterp spec fn reg_cfg(op: Seq<char>) -> Option<InfixOpConfig>;
 pub uninterp spec fn reg_prefix_h(op: Seq<char>) -> Option<Arc<PrefixOpFunc>>;
 pub uninterp spec fn reg_postfix_h(op: Seq<char>) -> Option<Arc<PostfixOpFunc>>;
 pub uninterp spec fn reg_func_h(name: Seq<char>) -> Option<Arc<InnerFunction>>;
+// the vocabulary unit ev uses for the same registry views (its trusted read contracts are these, clause for clause: vx/links.py)
+pub open spec fn infix_ty(op: Seq<char>) -> Option<InfixOpType> { match reg_cfg(op) { Some(c) => Some(c.1), None => None } }
+pub open spec fn infix_h(op: Seq<char>) -> Option<Arc<InfixOpFunc>> { match reg_cfg(op) { Some(c) => Some(c.3), None => None } }
+pub open spec fn prefix_h(op: Seq<char>) -> Option<Arc<PrefixOpFunc>> { reg_prefix_h(op) }
+pub open spec fn postfix_h(op: Seq<char>) -> Option<Arc<PostfixOpFunc>> { reg_postfix_h(op) }
+pub open spec fn func_h(name: Seq<char>) -> Option<Arc<InnerFunction>> { reg_func_h(name) }
+pub proof fn lemma_same_entry(op: Seq<char>) ensures infix_ty(op) is Some <==> infix_h(op) is Some { }
 pub open spec fn reg_prefix(op: Seq<char>) -> bool { reg_prefix_h(op) is Some }
 pub open spec fn reg_postfix(op: Seq<char>) -> bool { reg_postfix_h(op) is Some }
 // rule 30: `self.store.lock().unwrap()` becomes `self.vx_lock()`; the guard is modelled as a shared reference to the locked
